@@ -397,6 +397,94 @@ def backend_facts(src_dir):
     return fresh, sorted(set(writes)), self_writes, class_state
 
 
+def factory_facts(src_dir, server_tree):
+    """Per-connection objects that are NOT built in server.py: the values stored in a stream's `throttles` dictionary (the
+    `throttles=` keyword of a constructor call, `<x>.throttles.update(...)`).  A value that is a plain reference is a shared
+    object (must be a declared one); a value that is a CALL `<recv>.m(...)` is a factory: every class of common.py that defines
+    `m` must return a NEWLY CONSTRUCTED object on every path - `return C(...)` with C a class of common.py (or `cls`), each
+    argument a constant, a parameter / attribute chain of self (configuration data), a constructor call or again a factory
+    call; `return <local>` where the local is bound once to such a call.  `return self`, `return self.x`, a cached object,
+    a conditional expression: "alias:<text>".  Found by position (what is stored under `throttles`), not by method name.
+    Returns (shared refs, [method names], [(Class, method, verdict)])"""
+    refs, calls = [], []
+    for n in ast.walk(server_tree):
+        if not isinstance(n, ast.Call):
+            continue
+        vals = []
+        for kw in n.keywords:
+            if kw.arg == "throttles":
+                v = kw.value
+                if isinstance(v, ast.Call) and isinstance(v.func, ast.Name) and v.func.id == "dict" and not v.args:
+                    vals += [k.value for k in v.keywords]
+                elif isinstance(v, ast.Dict):
+                    vals += list(v.values)
+                elif isinstance(v, ast.Attribute) and v.attr == "throttles" and isinstance(chain(v)[0], ast.Name) and chain(v)[0].id == "connection":
+                    pass  # the session's OWN dictionary handed to its data connection
+                else:
+                    raise Unclassified(f"throttles={src(v)[:60]}: not a literal dictionary")
+        if isinstance(n.func, ast.Attribute) and n.func.attr == "update" and isinstance(n.func.value, ast.Attribute) and n.func.value.attr == "throttles":
+            if n.args or any(k.arg is None for k in n.keywords):
+                raise Unclassified(f"{src(n)[:60]}: throttles.update with positional / ** arguments")
+            vals += [k.value for k in n.keywords]
+        for v in vals:
+            if isinstance(v, ast.Call):
+                if not isinstance(v.func, ast.Attribute):
+                    raise Unclassified(f"throttle built by {src(v)[:60]}")
+                calls.append(v.func.attr)
+            else:
+                refs.append(src(v))
+    if not calls:
+        raise Unclassified("no per-connection throttle factory call found in server.py")
+    ctree = ast.parse((Path(src_dir) / "common.py").read_text())
+    cclasses = {n.name: n for n in ctree.body if isinstance(n, ast.ClassDef)}
+    todo, done, out = list(dict.fromkeys(calls)), set(), []
+
+    def verdict(cn, m, e, depth=0):
+        """is expression e a newly constructed object?"""
+        if depth > 6:
+            return "alias:<deep>"
+        if isinstance(e, ast.Call):
+            f = e.func
+            ctor = isinstance(f, ast.Name) and (f.id in cclasses or f.id == "cls")
+            fact = isinstance(f, ast.Attribute)
+            if not (ctor or fact):
+                return "alias:" + src(e)[:40]
+            if fact:
+                if f.attr not in done and f.attr not in todo:
+                    todo.append(f.attr)
+                return "fresh"  # judged where the method is defined
+            for a in list(e.args) + [k.value for k in e.keywords]:
+                if isinstance(a, ast.Call):
+                    r = verdict(cn, m, a, depth + 1)
+                    if r != "fresh":
+                        return r
+                elif isinstance(a, ast.Starred) or not isinstance(a, (ast.Constant, ast.Name, ast.Attribute)):
+                    return "alias:arg " + src(a)[:40]
+            return "fresh"
+        if isinstance(e, ast.Name) and e.id not in ("self", "cls"):
+            binds = [st.value for st in ast.walk(m) if isinstance(st, ast.Assign) and any(isinstance(t, ast.Name) and t.id == e.id for t in st.targets)]
+            params = [a.arg for a in m.args.posonlyargs + m.args.args + m.args.kwonlyargs]
+            if len(binds) == 1 and e.id not in params:
+                return verdict(cn, m, binds[0], depth + 1)
+        return "alias:" + (src(e)[:40] if e is not None else "None")
+
+    while todo:
+        name = todo.pop(0)
+        done.add(name)
+        defs = [(cn, m) for cn, c in cclasses.items() for m in c.body if isinstance(m, FN) and m.name == name]
+        if not defs:
+            raise Unclassified(f"common.py: no class defines the factory method {name}")
+        for cn, m in defs:
+            rets = [r for r in ast.walk(m) if isinstance(r, ast.Return)]
+            if any(isinstance(x, (ast.Yield, ast.YieldFrom, ast.Global, ast.Nonlocal)) for x in ast.walk(m)) or not rets:
+                out.append((cn, name, "alias:<no plain return>"))
+                continue
+            vs = [verdict(cn, m, r.value) for r in rets]
+            bad = [v for v in vs if v != "fresh"]
+            out.append((cn, name, bad[0] if bad else "fresh"))
+    return sorted(set(refs)), sorted(set(calls)), sorted(out)
+
+
 def generate(src_dir):
     path = Path(src_dir) / "server.py"
     tree = ast.parse(path.read_text())
@@ -583,4 +671,9 @@ def generate(src_dir):
     lines.append("Definition iso_nursery_self_writes : list string := " + slist(nwrites) + ".\n")
     lines.append("Definition iso_backend_self_writes : list (string * string) := [" + "; ".join(f"({S(a)}, {S(b)})" for a, b in bwrites) + "].\n")
     lines.append("Definition iso_backend_class_state : list string := " + slist(bclass) + ".\n")
+    trefs, tcalls, tfacts = factory_facts(src_dir, tree)
+    lines.append("(* common.py: the factories of the per-connection objects stored under a stream's `throttles` *)")
+    lines.append("Definition iso_throttle_shared_refs : list string := " + slist(trefs) + ".\n")
+    lines.append("Definition iso_throttle_factory_calls : list string := " + slist(tcalls) + ".\n")
+    lines.append("Definition iso_factories : list (string * string * string) := [" + "; ".join(f"({S(a)}, {S(b)}, {S(c)})" for a, b, c in tfacts) + "].\n")
     return "\n".join(lines)
